@@ -23,6 +23,8 @@ every output that agrees with the model on the covered layers only.
 set_option linter.unusedSectionVars false
 set_option linter.unusedSimpArgs false
 set_option linter.unusedVariables false
+set_option linter.unusedTactic false
+set_option linter.unreachableTactic false
 
 namespace Dino.C16
 open Dino.Regrid
@@ -306,13 +308,6 @@ theorem intervalOverlap_nonneg (sb tb : List K) :
   simp only [intervalOv, mx_eq_max]
   exact le_max_right _ _
 
-/-- the part of the target layer `t` covered by the source range `[s₀, s_last]` -/
-def covered (t : K × K) (lo hi : K) : K := clamp t.1 t.2 hi - clamp t.1 t.2 lo
-
-theorem covered_of_inside {t : K × K} {lo hi : K} (ht : t.1 ≤ t.2) (h0 : lo ≤ t.1) (h1 : t.2 ≤ hi) :
-    covered t lo hi = t.2 - t.1 := by
-  unfold covered; rw [clamp_of_ge_right ht h1, clamp_of_le_left ht h0]
-
 /-- rows of `_interval_overlap` sum to the covered thickness of the target layer
  (`min(t_hi, s_last) − max(t_lo, s₀)` when the two intersect); the full thickness when the source
  range contains the layer -/
@@ -356,28 +351,6 @@ theorem verticalWeights_rows (sb tb : List K) :
   intro w hw
   obtain ⟨a, ha, rfl⟩ := List.mem_map.mp hw
   exact div_nonneg (hall a ha) (List.sum_nonneg hall)
-
-/-- `out` agrees with the model output `r` wherever the coverage `cov` is not zero (and is
- arbitrary — NaN in the code — elsewhere) -/
-def AgreesWhereCovered (cov r out : List K) : Prop :=
-  List.Forall₂ (fun c o => c.1 ≠ 0 → o = c.2) (cov.zip r) out
-
-theorem dot_agrees {cov r out : List K} (h : AgreesWhereCovered cov r out) :
-    dot cov out = dot cov r := by
-  unfold AgreesWhereCovered at h
-  induction cov generalizing r out with
-  | nil => simp
-  | cons c cov ih =>
-    cases r with
-    | nil => simp at h; subst h; simp
-    | cons r0 r =>
-      rw [List.zip_cons_cons] at h
-      cases h with
-      | cons h0 hrest =>
-        rw [dot_cons, dot_cons, ih hrest]
-        by_cases hc : c = 0
-        · rw [hc, zero_mul, zero_mul]
-        · rw [h0 hc]
 
 /-- **Vertical.**  For sorted source and target bounds the thickness-weighted sum over the covered
  range is conserved: `Σ_t covered_t · out_t = Σ_s covered_s · in_s`, for every `out` that agrees
@@ -447,19 +420,6 @@ theorem regridHybridToSigma_conservation (a b : List K) (sp : K) (s0 t0 : K) (sr
   rw [hb] at hout
   exact vertical_conservation s0 t0 sr tr hs ht f out hout
 
-theorem agreesWhereCovered_self (cov r : List K) (h : cov.length = r.length) :
-    AgreesWhereCovered cov r r := by
-  unfold AgreesWhereCovered
-  induction cov generalizing r with
-  | nil => cases r with
-    | nil => simp
-    | cons a r => simp at h
-  | cons c cov ih => cases r with
-    | nil => simp at h
-    | cons a r =>
-      rw [List.zip_cons_cons]
-      exact List.Forall₂.cons (fun _ => rfl) (ih r (by simpa using h))
-
 /-- non-vacuity: the source range `[1/10, 9/10]` lies inside the target range `[0, 1]`;
  the middle target layer is fully covered, the outer ones partly -/
 example : dot ((cells [(0 : ℚ), 1 / 4, 1 / 2, 1]).map fun t => covered t (1 / 10) (9 / 10))
@@ -500,14 +460,6 @@ theorem lonWeights_rejects (md : K → K → K) (P : K) (src tgt : List K) :
   unfold lonWeights
   rw [← increasing_iff, ← increasing_iff, ← Bool.and_eq_true]
   split_ifs with h <;> simp [h]
-
-theorem abs_le_abs_of {a b : K} (h1 : a ≤ b ∨ a ≤ -b) (h2 : -a ≤ b ∨ -a ≤ -b) : |a| ≤ |b| := by
-  rw [abs_le]
-  have e1 := le_abs_self b
-  have e2 := neg_le_abs b
-  constructor
-  · rcases h2 with h | h <;> linarith
-  · rcases h1 with h | h <;> linarith
 
 /-- `_align_phase_with` does what its docstring says: the result is one of `x − P`, `x`, `x + P`,
  no other of the three is closer to the target, and it is within half a period of the target
@@ -649,5 +601,286 @@ theorem stated_precondition_insufficient :
     (lonOverlap md P first second).map List.sum = [3, 3, 3, 5 / 2] ∧
     (lonOverlap md P second first).map List.sum = [7 / 2, 4, 4] := by
   decide +kernel
+
+/-! ### from the points to the cells -/
+
+/-- **The cells partition the circle.**  For at least two strictly increasing points within one
+ period on which `%` is the identity, with gaps (including the wrap-around gap) of at most
+ `g < P/2`: the cells `(lower, upper)` built by `_longitude_overlap` are the consecutive cells of
+ a strictly increasing vector of bounds that starts at `a₀ = (last − P + first)/2`, ends at
+ `a₀ + P`, and has cell widths in `(0, g]`. -/
+theorem lonCells_partition (md : K → K → K) {P : K} (hP : 0 < P) (p0 p1 : K) (r : List K) (g : K)
+    (hmd : ∀ v ∈ p0 :: p1 :: r, md v P = v) (hinc : (p0 :: p1 :: r).Pairwise (· < ·))
+    (hper : r.getLastD p1 - p0 < P)
+    (hgap : ∀ d ∈ diffs (p0 :: p1 :: r), d ≤ g) (hwrap : P - (r.getLastD p1 - p0) ≤ g)
+    (hg : g < P / 2) :
+    ∃ ra : List K, lonCells md P (p0 :: p1 :: r)
+        = cells (((r.getLastD p1 - P) + p0) / (1 + 1) :: ra) ∧
+      ((((r.getLastD p1 - P) + p0) / (1 + 1)) :: ra).Pairwise (· < ·) ∧
+      ra.getLastD (((r.getLastD p1 - P) + p0) / (1 + 1)) = ((r.getLastD p1 - P) + p0) / (1 + 1) + P ∧
+      ∀ c ∈ cells ((((r.getLastD p1 - P) + p0) / (1 + 1)) :: ra), 0 < c.2 - c.1 ∧ c.2 - c.1 ≤ g := by
+  set L := r.getLastD p1 with hL
+  have hpos := diffs_pos_of_pairwise hinc
+  have hLmax : ∀ v ∈ p0 :: p1 :: r, v ≤ L := by
+    have := le_getLastD_of_pairwise p0 (p1 :: r) (pairwise_le_of_lt hinc)
+    rwa [List.getLastD_cons] at this
+  have hp0min : ∀ v ∈ p0 :: p1 :: r, p0 ≤ v := by
+    intro v hv
+    rcases List.mem_cons.mp hv with rfl | hv
+    · exact le_refl _
+    · exact ((List.pairwise_cons.mp hinc).1 v hv).le
+  have hcells := lonCells_eq md hP p0 p1 r hmd
+    (fun d hd => ⟨(hpos d hd).le, by linarith [hgap d hd]⟩) (by linarith)
+  -- the extended vector of points
+  have hext : (((L - P) :: p0 :: p1 :: r) ++ [p0 + P]).Pairwise (· < ·) := by
+    rw [List.cons_append, List.pairwise_cons]
+    constructor
+    · intro v hv
+      rcases List.mem_append.mp hv with hv | hv
+      · linarith [hp0min v hv]
+      · rw [List.mem_singleton.mp hv]; linarith
+    · rw [List.pairwise_append]
+      refine ⟨hinc, by simp, ?_⟩
+      intro v hv w hw
+      rw [List.mem_singleton.mp hw]; linarith [hLmax v hv]
+  have hdiffs : ∀ d ∈ diffs (((L - P) :: p0 :: p1 :: r) ++ [p0 + P]), 0 < d ∧ d ≤ g := by
+    intro d hd
+    refine ⟨diffs_pos_of_pairwise hext d hd, ?_⟩
+    rw [diffs_append_singleton, diffs_cons_cons, List.getLastD_cons, List.getLastD_cons,
+      List.mem_append, List.mem_cons, List.mem_singleton] at hd
+    rcases hd with (rfl | hd) | rfl
+    · linarith
+    · exact hgap d hd
+    · linarith
+  refine ⟨mids ((p0 :: p1 :: r) ++ [p0 + P]), ?_, ?_, ?_, ?_⟩
+  · rw [hcells]; rfl
+  · have := mids_pairwise hext
+    simpa only [List.cons_append, mids_cons_cons] using this
+  · rw [getLastD_mids_append, List.getLastD_cons]
+    rw [one_add_one_eq_two]; ring
+  · have := width_cells_mids hdiffs
+    simpa only [List.cons_append, mids_cons_cons] using this
+
+/-- **Longitude, from the coordinate vectors.**  Source and target longitudes in `[0, P)`, strictly
+ increasing, at least two each, with circular gaps at most `gs` resp. `gt`, `gs + gt ≤ P/2`
+ (for equispaced grids: `1/n_s + 1/n_t ≤ 1/2`).  Then `conservative_longitude_weights` succeeds,
+ its entries are non-negative, its rows sum to one, the cells of each grid tile one period, and
+ the width-weighted sum is conserved. -/
+theorem lonWeights_conservative_of_points (md : K → K → K) {P : K} (hP : 0 < P)
+    (hmd : ∀ v, 0 ≤ v → v < P → md v P = v)
+    (s0 s1 t0 t1 : K) (sr tr : List K) (gs gt : K)
+    (hs : (s0 :: s1 :: sr).Pairwise (· < ·)) (ht : (t0 :: t1 :: tr).Pairwise (· < ·))
+    (hs0 : 0 ≤ s0) (hsl : sr.getLastD s1 < P) (ht0 : 0 ≤ t0) (htl : tr.getLastD t1 < P)
+    (hgs : ∀ d ∈ diffs (s0 :: s1 :: sr), d ≤ gs) (hws : P - (sr.getLastD s1 - s0) ≤ gs)
+    (hgt : ∀ d ∈ diffs (t0 :: t1 :: tr), d ≤ gt) (hwt : P - (tr.getLastD t1 - t0) ≤ gt)
+    (hg : gs + gt ≤ P / 2) :
+    ∃ W, lonWeights md P (s0 :: s1 :: sr) (t0 :: t1 :: tr) = some W ∧
+      (∀ row ∈ W, (∀ w ∈ row, 0 ≤ w) ∧ row.sum = 1) ∧
+      ((lonCells md P (t0 :: t1 :: tr)).map fun c => c.2 - c.1).sum = P ∧
+      ((lonCells md P (s0 :: s1 :: sr)).map fun c => c.2 - c.1).sum = P ∧
+      ∀ x : List K, dot ((lonCells md P (t0 :: t1 :: tr)).map fun c => c.2 - c.1) (matvec W x)
+        = dot ((lonCells md P (s0 :: s1 :: sr)).map fun c => c.2 - c.1) x := by
+  have hgs0 : 0 < gs := lt_of_lt_of_le (diffs_pos_of_pairwise hs (s1 - s0) (by simp))
+    (hgs (s1 - s0) (by simp))
+  have hgt0 : 0 < gt := lt_of_lt_of_le (diffs_pos_of_pairwise ht (t1 - t0) (by simp))
+    (hgt (t1 - t0) (by simp))
+  have hmaxS : ∀ v ∈ s0 :: s1 :: sr, v ≤ sr.getLastD s1 := by
+    have := le_getLastD_of_pairwise s0 (s1 :: sr) (pairwise_le_of_lt hs)
+    rwa [List.getLastD_cons] at this
+  have hmaxT : ∀ v ∈ t0 :: t1 :: tr, v ≤ tr.getLastD t1 := by
+    have := le_getLastD_of_pairwise t0 (t1 :: tr) (pairwise_le_of_lt ht)
+    rwa [List.getLastD_cons] at this
+  have hminS : ∀ v ∈ s0 :: s1 :: sr, s0 ≤ v := by
+    intro v hv
+    rcases List.mem_cons.mp hv with rfl | hv
+    · exact le_refl _
+    · exact ((List.pairwise_cons.mp hs).1 v hv).le
+  have hminT : ∀ v ∈ t0 :: t1 :: tr, t0 ≤ v := by
+    intro v hv
+    rcases List.mem_cons.mp hv with rfl | hv
+    · exact le_refl _
+    · exact ((List.pairwise_cons.mp ht).1 v hv).le
+  have hLs := hmaxS s0 (by simp)
+  have hLt := hmaxT t0 (by simp)
+  obtain ⟨rb, hS, hB, hBl, hwB⟩ := lonCells_partition md hP s0 s1 sr gs
+    (fun v hv => hmd v (le_trans hs0 (hminS v hv)) (lt_of_le_of_lt (hmaxS v hv) hsl)) hs
+    (by linarith) hgs hws (by linarith)
+  obtain ⟨ra, hT, hA, hAl, hwA⟩ := lonCells_partition md hP t0 t1 tr gt
+    (fun v hv => hmd v (le_trans ht0 (hminT v hv)) (lt_of_le_of_lt (hmaxT v hv) htl)) ht
+    (by linarith) hgt hwt (by linarith)
+  have hr : ((tr.getLastD t1 - P) + t0) / (1 + 1) - P ≤ ((sr.getLastD s1 - P) + s0) / (1 + 1) ∧
+      ((sr.getLastD s1 - P) + s0) / (1 + 1) ≤ ((tr.getLastD t1 - P) + t0) / (1 + 1) + P := by
+    rw [one_add_one_eq_two]; constructor <;> linarith
+  obtain ⟨W, hW, hrows, hcons⟩ := lonWeights_conservative md hP (s0 :: s1 :: sr) (t0 :: t1 :: tr)
+    _ _ ra rb hs ht hT hS hA (pairwise_le_of_lt hB) hAl hBl
+    (fun x hx y hy => by linarith [(hwA x hx).2, (hwB y hy).2]) hr
+  refine ⟨W, hW, hrows, ?_, ?_, hcons⟩
+  · rw [hT, sum_cells_telescope (fun v => v), hAl]; ring
+  · rw [hS, sum_cells_telescope (fun v => v), hBl]; ring
+
+/-- non-vacuity: 4 source and 5 target longitudes on a circle of length 12, gaps 3 and 3,
+ both grids offset -/
+example : ∃ W, lonWeights (fun x _ => x) (12 : ℚ) [1, 4, 7, 10] [1 / 2, 3, 5, 8, 11] = some W ∧
+    (∀ row ∈ W, (∀ w ∈ row, 0 ≤ w) ∧ row.sum = 1) ∧
+    ((lonCells (fun x _ => x) (12 : ℚ) [1 / 2, 3, 5, 8, 11]).map fun c => c.2 - c.1).sum = 12 ∧
+    ((lonCells (fun x _ => x) (12 : ℚ) [1, 4, 7, 10]).map fun c => c.2 - c.1).sum = 12 ∧
+    ∀ x : List ℚ,
+      dot ((lonCells (fun x _ => x) (12 : ℚ) [1 / 2, 3, 5, 8, 11]).map fun c => c.2 - c.1) (matvec W x)
+        = dot ((lonCells (fun x _ => x) (12 : ℚ) [1, 4, 7, 10]).map fun c => c.2 - c.1) x :=
+  lonWeights_conservative_of_points (fun x _ => x) (by norm_num) (fun _ _ _ => rfl)
+    1 4 (1 / 2) 3 [7, 10] [5, 8, 11] 3 3 (by decide +kernel) (by decide +kernel) (by norm_num)
+    (by decide +kernel) (by norm_num) (by decide +kernel) (by decide +kernel) (by decide +kernel)
+    (by decide +kernel) (by decide +kernel) (by norm_num)
+
+/-! ## the two-dimensional regridder -/
+
+/-- **Horizontal conservation.**  If the longitude weights conserve the width-weighted sum and the
+ latitude weights conserve the `g`-area-weighted sum, the regridded field (`_mean`) has the same
+ area-weighted integral as the input: `Σ_{a,c} w_a A_c · out[a][c] = Σ_{b,d} w_b A_d · f[b][d]`. -/
+theorem horizontal_conservation (lw tw : List (List K)) (wT wS aT aS : List K)
+    (hl : ∀ x : List K, dot wT (matvec lw x) = dot wS x)
+    (ht : ∀ y : List K, dot aT (matvec tw y) = dot aS y) (f : List (List K)) :
+    dot wT ((mean2 lw tw f).map fun row => dot aT row) = dot wS (f.map fun fb => dot aS fb) := by
+  rw [← hl]
+  congr 1
+  unfold mean2 matvec
+  rw [List.map_map]
+  apply List.map_congr_left
+  intro ra _
+  simp only [Function.comp_def]
+  -- Σ_c A_c Σ_b ra_b (rc · f_b) = Σ_b ra_b Σ_c A_c (rc · f_b)
+  have e : ∀ fb : List K, dot aS fb = dot aT (tw.map fun rc => dot rc fb) := fun fb => (ht fb).symm
+  simp only [e]
+  rw [dot_map_right, dot_map_right]
+  simp only [dot_map_right, ← List.sum_map_mul_left]
+  rw [sum_map_sum_comm]
+  congr 1
+  apply List.map_congr_left
+  intro pb _
+  congr 1
+  apply List.map_congr_left
+  intro pc _
+  ring
+
+/-- every output cell of `__call__` is the decision rule applied to the cell's weighted sum of the
+ zero-filled values and to its non-NaN weight -/
+theorem regridWith_cells (rtol atol : K) (skipna : Bool) (lw tw : List (List K))
+    (f : List (List (Option K))) :
+    regridWith rtol atol skipna lw tw f = lw.map fun ra => tw.map fun rc =>
+      cellValue rtol atol skipna (cellMean ra rc f) (cellFrac ra rc f) := by
+  unfold regridWith
+  rw [mean2_eq, mean2_eq, List.zipWith_map, List.zipWith_self]
+  apply List.map_congr_left
+  intro ra _
+  rw [List.zipWith_map, List.zipWith_self]
+  rfl
+
+/-! ## T16.5 missing values -/
+
+/-- `skipna=True`: an output cell is NaN exactly when every input cell that carries weight is
+ NaN (non-negative weights) -/
+theorem skipna_nan_iff (rtol atol : K) (ra rc : List K) (f : List (List (Option K)))
+    (hra : ∀ w ∈ ra, 0 ≤ w) (hrc : ∀ w ∈ rc, 0 ≤ w) :
+    cellValue rtol atol true (cellMean ra rc f) (cellFrac ra rc f) = none ↔ AllNull ra rc f := by
+  rw [← cellFrac_eq_zero_iff ra rc f hra hrc]
+  unfold cellValue
+  simp only [if_true]
+  constructor
+  · intro h
+    split_ifs at h with hz
+    rw [Bool.and_eq_true, isZero_iff, isZero_iff] at hz
+    exact hz.1
+  · intro h
+    have hm := cellMean_eq_zero_of_allNull ra rc f ((cellFrac_eq_zero_iff ra rc f hra hrc).mp h)
+    rw [if_pos]
+    rw [Bool.and_eq_true, isZero_iff, isZero_iff]
+    exact ⟨h, hm⟩
+
+/-- `skipna=False`: an output cell is NaN exactly when the non-NaN weight is not within
+ `atol + rtol·|1|` of one (`jnp.isclose(not_null_fraction, 1, rtol=1e-3)`) -/
+theorem noskip_nan_iff (rtol atol : K) (ra rc : List K) (f : List (List (Option K))) :
+    cellValue rtol atol false (cellMean ra rc f) (cellFrac ra rc f) = none
+      ↔ atol + rtol * |1| < |cellFrac ra rc f - 1| := by
+  unfold cellValue
+  simp only [Bool.false_eq_true, if_false]
+  split_ifs with h
+  · rw [isClose_iff] at h
+    simp only [reduceCtorEq, false_iff, not_lt]
+    exact h
+  · rw [isClose_iff, not_le] at h
+    simp only [true_iff]
+    exact h
+
+/-- `skipna=False` with complete rows summing to one, non-negative tolerances and no NaN among the
+ inputs that carry weight: the output is not NaN, it is the weighted mean -/
+theorem noskip_not_nan_of_no_null (rtol atol : K) (hr : 0 ≤ rtol) (ha : 0 ≤ atol)
+    (ra rc : List K) (f : List (List (Option K)))
+    (hsa : ra.sum = 1) (hsc : rc.sum = 1)
+    (hf : f.length = ra.length) (hfb : ∀ fb ∈ f, fb.length = rc.length)
+    (h : NoNull ra rc f) :
+    cellValue rtol atol false (cellMean ra rc f) (cellFrac ra rc f) = some (cellMean ra rc f) := by
+  have hfrac : cellFrac ra rc f = 1 := by
+    rw [cellFrac_of_noNull ra rc f hf hfb h, hsa, hsc, one_mul]
+  unfold cellValue
+  simp only [Bool.false_eq_true, if_false]
+  rw [if_pos, hfrac, div_one]
+  rw [isClose_iff, hfrac, sub_self, abs_zero, abs_one, mul_one]
+  linarith
+
+/-- **The recorded finding.**  `skipna=False`: if the NaN inputs carry a weight of at most
+ `atol + rtol` (0.1 % with the code's `rtol=1e-3`), the output is *not* NaN — the NaN is not
+ propagated although it overlaps the target cell — and the value is the mean over the other
+ inputs. -/
+theorem noskip_sliver_not_propagated (rtol atol : K) (ra rc : List K)
+    (f : List (List (Option K))) (h : |cellFrac ra rc f - 1| ≤ atol + rtol) :
+    cellValue rtol atol false (cellMean ra rc f) (cellFrac ra rc f)
+      = some (cellMean ra rc f / cellFrac ra rc f) := by
+  unfold cellValue
+  simp only [Bool.false_eq_true, if_false]
+  rw [if_pos]
+  rw [isClose_iff, abs_one, mul_one]
+  exact h
+
+/-- a concrete instance of the finding: the target cell takes 1/2000 of its area from a NaN
+ source cell; rows are non-negative and sum to one; `rtol = 1/1000`, `atol = 1/10^8` -/
+theorem noskip_sliver_witness :
+    let lw : List (List ℚ) := [[1999 / 2000, 1 / 2000]]
+    let tw : List (List ℚ) := [[1]]
+    let f : List (List (Option ℚ)) := [[some 3], [none]]
+    (∀ row ∈ lw ++ tw, (∀ w ∈ row, 0 ≤ w) ∧ row.sum = 1) ∧
+    ¬ NoNull [1999 / 2000, 1 / 2000] [1] f ∧
+    regridWith (1 / 1000) (1 / 100000000) false lw tw f = [[some 3]] ∧
+    regridWith (1 / 1000) (1 / 100000000) true lw tw f = [[some 3]] := by
+  refine ⟨by decide +kernel, ?_, by decide +kernel, by decide +kernel⟩
+  intro h
+  exact h (1 / 2000, [none]) (by simp) (1, none) (by simp) (by norm_num) rfl
+
+/-- whenever an output cell is a number, it is the weighted mean of the non-NaN inputs:
+ `Σ w·f / Σ w` over the non-NaN inputs — and the denominator is not zero (non-negative weights;
+ tolerances below one) -/
+theorem value_is_weighted_mean (rtol atol : K) (htol : atol + rtol < 1) (skipna : Bool)
+    (ra rc : List K) (f : List (List (Option K)))
+    (hra : ∀ w ∈ ra, 0 ≤ w) (hrc : ∀ w ∈ rc, 0 ≤ w) (v : K)
+    (h : cellValue rtol atol skipna (cellMean ra rc f) (cellFrac ra rc f) = some v) :
+    v = cellMean ra rc f / cellFrac ra rc f ∧ cellFrac ra rc f ≠ 0 := by
+  unfold cellValue at h
+  cases skipna with
+  | true =>
+    simp only [if_true] at h
+    split_ifs at h with hz
+    cases h
+    refine ⟨rfl, ?_⟩
+    intro h0
+    apply hz
+    rw [Bool.and_eq_true, isZero_iff, isZero_iff]
+    exact ⟨h0, cellMean_eq_zero_of_allNull ra rc f ((cellFrac_eq_zero_iff ra rc f hra hrc).mp h0)⟩
+  | false =>
+    simp only [Bool.false_eq_true, if_false] at h
+    split_ifs at h with hc
+    cases h
+    refine ⟨rfl, ?_⟩
+    intro h0
+    rw [isClose_iff, h0, abs_one, mul_one, zero_sub, abs_neg, abs_one] at hc
+    linarith
 
 end Dino.C16
